@@ -558,6 +558,10 @@ func findParamLen(s string, segment *routeSegment) int {
 	}
 
 	if segment.Length != 0 && len(s) >= segment.Length {
+		// one character of two adjacent named parameters: a slash is not part of a value
+		if !segment.IsGreedy && strings.IndexByte(s[:segment.Length], slashDelimiter) != -1 {
+			return 0
+		}
 		return segment.Length
 	} else if segment.IsGreedy {
 		// Search the parameters until the next constant part
